@@ -277,10 +277,6 @@ theorem firstWidths_total (fl : Flags) (hfl : fl.flexNegative = false) (t : Tabl
       obtain ⟨x, rest, hrd, hrdl, hx1⟩ := ratioDistribute_mins (maxWidth - fixed.sum)
         (flex.map (fun ci => ci.1.ratio.getD 0)) (flex.map (fun ci => orOne (ci.1.width.getD 0) + t.paddingWidth ci.2))
         (by simp) hratnn hany hmins
-      simp only [hrd, hfl, Bool.false_eq_true, if_false]
-      have hcl : (x :: rest).map (fun w => max 0 w) = max 0 x :: rest.map (fun w => max 0 w) := rfl
-      have hclnn : ∀ f ∈ (x :: rest).map (fun w => max 0 w), 0 ≤ f := by
-        intro f hf; simp only [List.mem_map] at hf; obtain ⟨y, _, rfl⟩ := hf; omega
       have hLlen : (t.columns.zip ((ranges.map (fun r => orOne r.maximum)).zip fixed)).length = t.columns.length := by
         simp [hRlen, hFlen]
       have hLe : ∀ e ∈ t.columns.zip ((ranges.map (fun r => orOne r.maximum)).zip fixed), 1 ≤ e.2.1 ∧ 0 ≤ e.2.2 := by
@@ -288,27 +284,187 @@ theorem firstWidths_total (fl : Flags) (hfl : fl.flexNegative = false) (t : Tabl
         have h2 := (List.of_mem_zip he).2
         exact ⟨hW1 _ (List.of_mem_zip h2).1, hFnn _ (List.of_mem_zip h2).2⟩
       have hcnt : ((t.columns.zip ((ranges.map (fun r => orOne r.maximum)).zip fixed)).filter (fun e => e.1.flexible)).length
-          ≤ ((x :: rest).map (fun w => max 0 w)).length := by
+          ≤ (x :: rest).length := by
         rw [filter_zip_fst_length (fun c => c.flexible) t.columns _ (by simp [hRlen, hFlen])]
         have : (flex.map (fun ci => ci.1.ratio.getD 0)).length = (t.columns.filter (fun c => c.flexible)).length := by
           rw [List.length_map, ← hflexdef]
           unfold Table.indexed
           exact filter_zipIdx_length (fun c => c.flexible) t.columns 0
-        rw [List.length_map, hrdl, this]
+        rw [hrdl, this]
         exact Nat.le_refl _
       generalize t.columns.zip ((ranges.map (fun r => orOne r.maximum)).zip fixed) = L at hLlen hLe hcnt ⊢
-      obtain ⟨r, hr1, hr2, hr3⟩ := mergeFlex_total L _ (fun e he => by have := hLe e he; exact ⟨by omega, this.2⟩) hclnn hcnt
-      refine ⟨r, hr1, by omega, hr3, ?_⟩
-      cases hL : L with
-      | nil => rw [hL] at hLlen; simp at hLlen; exact absurd (List.eq_nil_of_length_eq_zero hLlen.symm) hne
-      | cons e L' =>
-        obtain ⟨c, w, fixed0⟩ := e
-        have he := hLe (c, w, fixed0) (by rw [hL]; simp)
-        rw [hL] at hr1
-        obtain ⟨y, r', hry, hy1⟩ := mergeFlex_head c w fixed0 L' _ r he.1 he.2
-          (by intro f fs hf; rw [hcl] at hf; injection hf with hf1 _; omega) hr1
-        rw [hry] at hr3 ⊢
-        exact sum_pos_of_head y r' hy1 (fun z hz => hr3 z (List.mem_cons_of_mem _ hz))
+      -- whatever clamp is applied: same length, nothing negative, the first share still at least 1
+      have tail : ∀ (cl : List Int), cl.length = (x :: rest).length → (∀ f ∈ cl, 0 ≤ f) → (∀ f fs, cl = f :: fs → 1 ≤ f) →
+          ∃ ws, mergeFlex L cl = some ws ∧ ws.length = t.columns.length ∧ (∀ w ∈ ws, 0 ≤ w) ∧ 0 < ws.sum := by
+        intro cl hcll hclnn hclh
+        obtain ⟨r, hr1, hr2, hr3⟩ := mergeFlex_total L cl (fun e he => by have := hLe e he; exact ⟨by omega, this.2⟩) hclnn (by omega)
+        refine ⟨r, hr1, by omega, hr3, ?_⟩
+        cases hL : L with
+        | nil => rw [hL] at hLlen; simp at hLlen; exact absurd (List.eq_nil_of_length_eq_zero hLlen.symm) hne
+        | cons e L' =>
+          obtain ⟨c, w, fixed0⟩ := e
+          have he := hLe (c, w, fixed0) (by rw [hL]; simp)
+          rw [hL] at hr1
+          obtain ⟨y, r', hry, hy1⟩ := mergeFlex_head c w fixed0 L' cl r he.1 he.2 hclh hr1
+          rw [hry] at hr3 ⊢
+          exact sum_pos_of_head y r' hy1 (fun z hz => hr3 z (List.mem_cons_of_mem _ hz))
+      simp only [hrd, hfl, Bool.false_eq_true, if_false]
+      by_cases hcz : fl.flexClampZero = true
+      · simp only [hcz, if_true]
+        apply tail
+        · simp
+        · intro f hf; simp only [List.mem_map] at hf; obtain ⟨y, _, rfl⟩ := hf; omega
+        · intro f fs hf
+          simp only [List.map_cons] at hf
+          injection hf with hf1 _
+          omega
+      · simp only [hcz, Bool.false_eq_true, if_false]
+        cases hfm : flex.map (fun ci => orOne (ci.1.width.getD 0) + t.paddingWidth ci.2) with
+        | nil =>
+          have : (flex.map (fun ci => ci.1.ratio.getD 0)).length = 0 := by
+            have := congrArg List.length hfm
+            simpa using this
+          rw [← hrdl] at this
+          simp at this
+        | cons m0 ms =>
+          have hm0 := hmins m0 (by rw [hfm]; simp)
+          have hmsl : ms.length = rest.length := by
+            have h1 := congrArg List.length hfm
+            simp only [List.length_map, List.length_cons] at h1 hrdl
+            omega
+          apply tail
+          · simp [hmsl]
+          · intro f hf
+            simp only [List.mem_map] at hf
+            obtain ⟨p, hp, rfl⟩ := hf
+            have := hmins p.1 (by rw [hfm]; exact (List.of_mem_zip hp).1)
+            omega
+          · intro f fs hf
+            simp only [List.zip_cons_cons, List.map_cons] at hf
+            injection hf with hf1 _
+            omega
+    · exact hplain
+  · exact hplain
+
+theorem mergeFlex_pos : ∀ (l : List (Column × Int × Int)) (flex : List Int),
+    (∀ e ∈ l, 1 ≤ e.2.1 ∧ 0 ≤ e.2.2) → (∀ f ∈ flex, 1 ≤ f) → (l.filter (fun e => e.1.flexible)).length ≤ flex.length →
+    ∃ r, mergeFlex l flex = some r ∧ r.length = l.length ∧ ∀ x ∈ r, 1 ≤ x
+  | [], _, _, _, _ => ⟨[], rfl, rfl, by simp⟩
+  | (c, w, fixed) :: rest, flex, hl, hf, hcnt => by
+    have hrest : ∀ e ∈ rest, 1 ≤ e.2.1 ∧ 0 ≤ e.2.2 := fun e he => hl e (List.mem_cons_of_mem _ he)
+    have h0 := hl (c, w, fixed) (by simp)
+    simp only at h0
+    unfold mergeFlex
+    by_cases hc : c.flexible = true
+    · simp only [hc, if_true]
+      cases flex with
+      | nil => simp [hc] at hcnt
+      | cons f flex' =>
+        simp only [List.filter_cons, hc, if_true, List.length_cons] at hcnt
+        obtain ⟨r, h1, h2, h3⟩ := mergeFlex_pos rest flex' hrest (fun x hx => hf x (List.mem_cons_of_mem _ hx)) (by omega)
+        refine ⟨(fixed + f) :: r, by simp [h1], by simp [h2], ?_⟩
+        intro x hx
+        rcases List.mem_cons.mp hx with rfl | hx
+        · have := hf f (by simp); omega
+        · exact h3 x hx
+    · simp only [hc, Bool.false_eq_true, if_false]
+      simp only [List.filter_cons, hc, Bool.false_eq_true, if_false] at hcnt
+      obtain ⟨r, h1, h2, h3⟩ := mergeFlex_pos rest flex hrest hf hcnt
+      refine ⟨w :: r, by simp [h1], by simp [h2], ?_⟩
+      intro x hx
+      rcases List.mem_cons.mp hx with rfl | hx
+      · omega
+      · exact h3 x hx
+
+/-- With the flexible widths kept at their minimums (`flexNegative`, `flexClampZero` repaired) the first pass gives EVERY
+column at least one cell — ratio columns of any non-negative ratio, zero included. -/
+theorem firstWidths_ge_one (fl : Flags) (h2 : fl.flexNegative = false) (h3 : fl.flexClampZero = false) (t : Table) (maxWidth : Int)
+    (hmeas : ∀ ci ∈ t.indexed, 0 ≤ (t.measureColumn ci.2 ci.1 maxWidth).maximum)
+    (hpad : ∀ i, 0 ≤ t.paddingWidth i) (hwid : ∀ c ∈ t.columns, 0 ≤ c.width.getD 0) (hrat : ∀ c ∈ t.columns, 0 ≤ c.ratio.getD 0) :
+    ∃ ws, t.firstWidths fl maxWidth = some ws ∧ ws.length = t.columns.length ∧ ∀ w ∈ ws, 1 ≤ w := by
+  unfold Table.firstWidths
+  simp only
+  have hRnn : ∀ r ∈ t.indexed.map (fun ci => t.measureColumn ci.2 ci.1 maxWidth), 0 ≤ r.maximum := by
+    intro r hr
+    simp only [List.mem_map] at hr
+    obtain ⟨ci, hci, rfl⟩ := hr
+    exact hmeas ci hci
+  have hRlen : (t.indexed.map (fun ci => t.measureColumn ci.2 ci.1 maxWidth)).length = t.columns.length := by
+    simp [indexed_length]
+  generalize t.indexed.map (fun ci => t.measureColumn ci.2 ci.1 maxWidth) = ranges at hRnn hRlen ⊢
+  have hW1 : ∀ w ∈ ranges.map (fun r => orOne r.maximum), 1 ≤ w := by
+    intro w hw
+    simp only [List.mem_map] at hw
+    obtain ⟨r, hr, rfl⟩ := hw
+    exact orOne_pos _ (hRnn r hr)
+  have hplain : ∃ ws, some (ranges.map (fun r => orOne r.maximum)) = some ws ∧ ws.length = t.columns.length ∧ ∀ w ∈ ws, 1 ≤ w :=
+    ⟨_, rfl, by simp [hRlen], hW1⟩
+  split
+  · split
+    · rename_i hexp hany
+      generalize hflexdef : t.indexed.filter (fun ci => ci.1.flexible) = flex at *
+      have hratnn : ∀ r ∈ flex.map (fun ci => ci.1.ratio.getD 0), 0 ≤ r := by
+        intro r hr
+        simp only [List.mem_map] at hr
+        obtain ⟨ci, hci, rfl⟩ := hr
+        have hci' : ci ∈ t.indexed := by rw [← hflexdef] at hci; exact (List.mem_filter.1 hci).1
+        exact hrat ci.1 (mem_indexed t ci hci')
+      have hmins : ∀ m ∈ flex.map (fun ci => orOne (ci.1.width.getD 0) + t.paddingWidth ci.2), 1 ≤ m := by
+        intro m hm
+        simp only [List.mem_map] at hm
+        obtain ⟨ci, hci, rfl⟩ := hm
+        have hci' : ci ∈ t.indexed := by rw [← hflexdef] at hci; exact (List.mem_filter.1 hci).1
+        have := hpad ci.2
+        have := orOne_pos _ (hwid ci.1 (mem_indexed t ci hci'))
+        omega
+      have hFnn : ∀ f ∈ (ranges.zip t.indexed).map (fun rc => if rc.2.1.flexible then 0 else
+          if fl.fixedRawMaximum then rc.1.maximum else orOne rc.1.maximum), 0 ≤ f := by
+        intro f hf
+        simp only [List.mem_map] at hf
+        obtain ⟨rc, hrc, rfl⟩ := hf
+        have hnn := hRnn rc.1 (List.of_mem_zip hrc).1
+        split
+        · omega
+        · split
+          · exact hnn
+          · have := orOne_pos _ hnn; omega
+      have hFlen : ((ranges.zip t.indexed).map (fun rc => if rc.2.1.flexible then (0 : Int) else
+          if fl.fixedRawMaximum then rc.1.maximum else orOne rc.1.maximum)).length = t.columns.length := by
+        simp [hRlen, indexed_length]
+      generalize (ranges.zip t.indexed).map (fun rc => if rc.2.1.flexible then (0 : Int) else
+          if fl.fixedRawMaximum then rc.1.maximum else orOne rc.1.maximum) = fixed at hFnn hFlen ⊢
+      obtain ⟨x, rest, hrd, hrdl, hx1⟩ := ratioDistribute_mins (maxWidth - fixed.sum)
+        (flex.map (fun ci => ci.1.ratio.getD 0)) (flex.map (fun ci => orOne (ci.1.width.getD 0) + t.paddingWidth ci.2))
+        (by simp) hratnn hany hmins
+      have hLlen : (t.columns.zip ((ranges.map (fun r => orOne r.maximum)).zip fixed)).length = t.columns.length := by
+        simp [hRlen, hFlen]
+      have hLe : ∀ e ∈ t.columns.zip ((ranges.map (fun r => orOne r.maximum)).zip fixed), 1 ≤ e.2.1 ∧ 0 ≤ e.2.2 := by
+        intro e he
+        have h2 := (List.of_mem_zip he).2
+        exact ⟨hW1 _ (List.of_mem_zip h2).1, hFnn _ (List.of_mem_zip h2).2⟩
+      have hcnt : ((t.columns.zip ((ranges.map (fun r => orOne r.maximum)).zip fixed)).filter (fun e => e.1.flexible)).length
+          ≤ (x :: rest).length := by
+        rw [filter_zip_fst_length (fun c => c.flexible) t.columns _ (by simp [hRlen, hFlen])]
+        have : (flex.map (fun ci => ci.1.ratio.getD 0)).length = (t.columns.filter (fun c => c.flexible)).length := by
+          rw [List.length_map, ← hflexdef]
+          unfold Table.indexed
+          exact filter_zipIdx_length (fun c => c.flexible) t.columns 0
+        rw [hrdl, this]
+        exact Nat.le_refl _
+      generalize t.columns.zip ((ranges.map (fun r => orOne r.maximum)).zip fixed) = L at hLlen hLe hcnt ⊢
+      simp only [hrd, h2, h3, Bool.false_eq_true, if_false]
+      have hzl : ((flex.map (fun ci => orOne (ci.1.width.getD 0) + t.paddingWidth ci.2)).zip (x :: rest)).length = (x :: rest).length := by
+        have := hrdl
+        simp only [List.length_zip, List.length_map, List.length_cons] at this ⊢
+        omega
+      obtain ⟨r, hr1, hr2, hr3⟩ := mergeFlex_pos L
+        (((flex.map (fun ci => orOne (ci.1.width.getD 0) + t.paddingWidth ci.2)).zip (x :: rest)).map (fun mw => max mw.1 mw.2)) hLe (by
+        intro f hf
+        simp only [List.mem_map] at hf
+        obtain ⟨p, hp, rfl⟩ := hf
+        have := hmins p.1 (List.of_mem_zip hp).1
+        omega) (by rw [List.length_map, hzl]; exact hcnt)
+      exact ⟨r, hr1, by omega, hr3⟩
     · exact hplain
   · exact hplain
 
